@@ -27,7 +27,7 @@
      (count_eq_entries_at_quiescence now covers Clear: the defect clear-count-race
       was fixed in /repo by aae41ee and the model follows the repaired code) *)
 From Sdns Require Import Common.Base Common.GoList Gen.C16 C16.Model C16.Conc C16.Limiter C16.Lin.
-From Sdns Require Import C16.Proofs_cyc C16.Proofs_tab C16.Proofs_wf C16.Proofs_more C16.Proofs_seg C16.Proofs_hist C16.Proofs_conc C16.Proofs_evict C16.Proofs_cap C16.Proofs_gen C16.Proofs_lim C16.Proofs_float C16.Proofs_lin.
+From Sdns Require Import C16.Proofs_cyc C16.Proofs_tab C16.Proofs_wf C16.Proofs_more C16.Proofs_seg C16.Proofs_hist C16.Proofs_conc C16.Proofs_evict C16.Proofs_cap C16.Proofs_gen C16.Proofs_lim C16.Proofs_float C16.Proofs_lin C16.Wrap C16.Proofs_wrap.
 Open Scope nat_scope.
 
 (* 1. The table invariant (power-of-two length >= 8, no key twice, every probe
@@ -350,6 +350,76 @@ Example ex_linearizable :
      [mk_hop (LStore 0 7 70) 1 2; mk_hop (LGet 1 8 (Some 70%N)) 3 4]] = [false; false; false; false; false].
 Proof. vm_compute. split; reflexivity. Qed.
 
+(* 12c. The expiring wrappers of the answer cache (middleware/cache PositiveCache /
+        NegativeCache, Wrap.v): Get = cache.Get, then CompareAndDelete(key, the entry read)
+        when that entry had expired; Set = Add; Remove = Remove.  For EVERY schedule of any
+        number of threads whose programs are wrapper calls (Add / Get / Remove, and
+        CompareAndDelete(k, old) for any expired old — a superset of what the result-dependent
+        wrapper can do), any hash / selector / offset, either spill loop:
+        the history the wrappers' callers see ([wview]: a store of an expired entry is a
+        removal, a read yields the fresh part of what it saw, the clean-up is no operation)
+        is a legal history of the finite-map specification on the fresh view of the initial
+        content, the fresh part of the final tables is what that history leaves, and every
+        clean-up that hit removed exactly the expired entry that was current at that moment —
+        an entry stored after the reader looked is never taken by it.  Together with
+        legal_history_is_a_map: a wrapper Get yields the entry most recently Set under its key
+        unless it expired, was removed or evicted, under every interleaving. *)
+Theorem wrappers_are_a_map_of_fresh_entries :
+  forall (mix : N -> N) (sidx : nat -> N -> nat) (eoff : N -> Z) (rescan : bool) (expired : N -> bool),
+  (forall n k, 0 < n -> sidx n k < n) ->
+  forall m0 progs sched, SWF mix sidx m0 ->
+  (forall p, In p progs -> forallb (wcall expired) p = true) ->
+  let r := run_log mix sidx eoff rescan (init m0 progs) sched in
+  let W := wview expired (sabs sidx m0) (snd r) in
+  legal (fun k => fresh expired (sabs sidx m0 k)) W = true /\
+  (forall k, fresh expired (sabs sidx (c_map (fst r)) k) = reg W k (fresh expired (sabs sidx m0 k))) /\
+  (forall l1 t k old l2, snd r = l1 ++ LCad t k old true :: l2 ->
+     expired old = true /\ reg l1 k (sabs sidx m0 k) = Some old).
+Proof. exact Proofs_wrap.wrappers_linearize. Qed.
+Print Assumptions wrappers_are_a_map_of_fresh_entries.
+
+(* 12d. Calls that run to completion: a wrapper Get yields the fresh part of the stored
+        entry, keeps the segment invariant (Len = entries), changes no other key and removes
+        under its own key at most the expired entry it saw. *)
+Theorem wrapper_get_cleans_only_expired :
+  forall (mix : N -> N) (sidx : nat -> N -> nat) (expired : N -> bool),
+  (forall n k, 0 < n -> sidx n k < n) ->
+  forall m k, SWF mix sidx m ->
+  let r := w_get expired mix sidx m k in
+  SWF mix sidx (fst r) /\ snd r = fresh expired (sabs sidx m k) /\
+  (forall k', fresh expired (sabs sidx (fst r) k') = fresh expired (sabs sidx m k')) /\
+  (forall k', k' <> k -> sabs sidx (fst r) k' = sabs sidx m k') /\
+  (sabs sidx (fst r) k = sabs sidx m k \/
+   (sabs sidx (fst r) k = None /\ exists v, sabs sidx m k = Some v /\ expired v = true)).
+Proof. exact Proofs_wrap.wrapper_get_seq. Qed.
+Print Assumptions wrapper_get_cleans_only_expired.
+
+(* the code's own hashes, entry 1 expired: thread 1's wrapper Get reads it, thread 2 Sets the
+   fresh entry 2, thread 1's clean-up then misses; thread 3's wrapper Get on key 9 finds the
+   expired entry 1 there and its clean-up hits.  The callers' view: nothing stored (the
+   expired Sets are removals), both reads miss, then 5 -> 2; the fresh entry survives. *)
+Definition wrap_expired (v : N) : bool := N.eqb v 1.
+Definition wrap_progs : list (list call) :=
+  [[CSwc 5 1 10; CSwc 9 1 10]; [CGet 5; CCad 5 1]; [CSwc 5 2 10]; [CGet 9; CCad 9 1]].
+Definition wrap_sched : list nat := repeat 0 20 ++ [1; 1] ++ repeat 2 10 ++ repeat 1 10 ++ repeat 3 10.
+Example ex_wrap :
+  let r := run_log go_mix go_sidx go_eoff true (init (new_segmap 4 0) wrap_progs) wrap_sched in
+  forallb (forallb (wcall wrap_expired)) wrap_progs = true /\ quiescent (fst r) = true /\
+  snd r = [LStore 0 5 1; LStore 0 9 1; LGet 1 5 (Some 1%N); LStore 2 5 2; LCad 1 5 1 false;
+           LGet 3 9 (Some 1%N); LCad 3 9 1 true] /\
+  wview wrap_expired (fun _ => None) (snd r) = [LRem 0 5; LRem 0 9; LGet 1 5 None; LStore 2 5 2; LGet 3 9 None] /\
+  reg (snd r) 5 None = Some 2%N /\ reg (snd r) 9 None = None.
+Proof. vm_compute. repeat split; reflexivity. Qed.
+(* the search of Run.v on wrapper histories (CaseWLin): a reader that found an expired entry
+   while a fresh one was being stored is fine; a fresh entry that is gone after both returned
+   (what an unconditional Remove in the clean-up does) has no linearization *)
+Example ex_wlin :
+  map (fun ops => linearizable (map (wview_hop wrap_expired) ops))
+    [[mk_hop (LStore 0 7 1) 1 2; mk_hop (LGet 1 7 None) 3 8; mk_hop (LStore 2 7 20) 4 5; mk_hop (LGet 3 7 (Some 20%N)) 9 10];
+     [mk_hop (LStore 0 7 1) 1 2; mk_hop (LGet 1 7 None) 3 8; mk_hop (LStore 2 7 20) 4 5; mk_hop (LGet 3 7 None) 9 10];
+     [mk_hop (LStore 0 7 1) 1 2; mk_hop (LGet 1 7 (Some 1%N)) 3 4]] = [true; false; false].
+Proof. vm_compute. reflexivity. Qed.
+
 (* 13. No writer waits on a lock while holding one; there are only per-segment locks. *)
 Theorem no_nested_locks : forall (mix : N -> N) (sidx : nat -> N -> nat) (eoff : N -> Z) (rescan : bool),
   (forall n k, 0 < n -> sidx n k < n) ->
@@ -424,9 +494,9 @@ Example ex_limiter :
 Proof. eexists. vm_compute. repeat split; reflexivity. Qed.
 
 (* 15. The Go functions themselves, as srcgen translates them on every run
-       (Gen.C16: primaryIndex, getSegmentIndex, backwardShiftDelete, EvictKeysAt, Del
-       as whole functions with the receiver handed back, the probe loops of Put and Get),
-       compute what the model's hidx / go_sidx / bshift / tevict / tdel / put_core / scan compute,
+       (Gen.C16: primaryIndex, getSegmentIndex, backwardShiftDelete, EvictKeysAt, Del, Get
+       as whole functions with the receiver handed back, the probe loop of Put),
+       compute what the model's hidx / go_sidx / bshift / tevict / tdel / tget / put_core compute,
        on every table with a power-of-two slot array (gotab p t : the Go struct for the
        model table t; fuel > len (+ n for EvictKeysAt); "t_bad … = false": the model
        stayed inside its faithful envelope, which wf_preserved guarantees for every
@@ -455,12 +525,9 @@ Theorem translated_code_is_model : forall p, p <= 62 ->
                                          (if N.eqb (skey (t_data t) x) k then t_size t else (t_size t + 1)%Z))
      | None => fst r = GoNext /\ m' = gotab p t
      end) /\
-  (forall fuel d k idx sz ga hz zv, length d = 2 ^ p -> idx < 2 ^ p -> k <> 0%N -> 2 ^ p <= fuel ->
-     let r := go_UInt64Map_Get_loop1_run fuel (gomap d sz ga hz zv) k (Z.of_nat idx) in
-     match scan (stop_key k) (2 ^ p - 1) d (2 ^ p) (nxt (2 ^ p) idx) with
-     | Some x => fst r = GoRet (if N.eqb (skey d x) k then (snd (sl d x), true) else (0%N, false))
-     | None => fst r = GoNext
-     end).
+  (forall fuel t k, length (t_data t) = 2 ^ p -> 2 ^ p < fuel ->
+     go_UInt64Map_Get fuel (gotab p t) k =
+     Some (match tget go_mix t k with Some v => (v, true) | None => (0%N, false) end)).
 Proof.
   intros p Hp. repeat split.
   - intros m k H. apply gen_primaryIndex; auto.
@@ -470,7 +537,7 @@ Proof.
   - intros. apply gen_del; auto.
   - intros fuel t k v idx Hl Hi Hk Hf. unfold go_UInt64Map_Put_loop1_run.
     apply (gen_put_loop p Hp fuel fuel t k v idx 1 Hl Hi Hk). lia.
-  - intros. apply gen_get_run; auto.
+  - intros. apply gen_get; auto.
 Qed.
 Print Assumptions translated_code_is_model.
 
